@@ -96,10 +96,22 @@ def run(tier):
             return any(nonunit_delta(x) for x in t)
         return False
 
+    def bool_add(t):
+        """an addition (Binary add / Contraction with bin_op add) of two or more operands that are
+        boolean-typed tensors or numbers: numpy's bool + bool is OR (KF-bool-add)"""
+        if t.get("c") == "Bin" and t["op"]["n"] == "add":
+            kids = [t["l"], t["r"]]
+        elif t.get("c") == "Con" and t.get("bin") == "add":
+            kids = t["terms"]
+        else:
+            return False
+        return sum(1 for x in kids if x.get("c") in ("Ten", "Num") and x.get("dt") == 2) >= 2
+
     jr, n_ok, n_bad, n_undef = judge_events(
         out, uniq, "C02", lambda e: "%s|%s%s" % (e["rule"], replay.term_sig(e["lhs"], 1),
                                                  "|nonunit_delta" if nonunit_delta(e["lhs"]) else "")
-                          + ("|reduces_absent_var" if reduces_absent_var(e["lhs"]) else ""),
+                          + ("|reduces_absent_var" if reduces_absent_var(e["lhs"]) else "")
+                          + ("|bool_add" if bool_add(e["lhs"]) else ""),
         timeout=300 if tier == "quick" else 2400)
     rules = Counter(e["rule"] for e in uniq)
     out.coverage = {
